@@ -63,8 +63,19 @@ class Collector:
             self.finding(site, fact_bad, text, where, **extra)
 
     def floor(self, what, n, minimum):
+        """extraction floor: fewer sites than confirmed by hand means the rule no longer sees the code it was written for.
+        That is not evidence of a violation: the instance is UNDECIDED (printed, exit code unaffected); a vanished entry point
+        (class or method named by the property's anchors) is an AnalysisError raised by the lookup itself."""
         if n < minimum:
-            raise AnalysisError("%s: extracted %d %s, floor is %d (anchor shape lost?)" % (self.rule, n, what, minimum))
+            self.undecided("extraction:%s" % what, "extracted %d, confirmed by hand %d" % (n, minimum),
+                           "the rule recognises fewer %s than on the tree it was written for: the code has another shape, nothing is concluded" % what)
+
+    def shape(self, cond, site, fact_ok, what, where="", **extra):
+        """a recognised shape discharges the obligation; an unrecognised one decides nothing"""
+        if cond:
+            self.ok(site, fact_ok, where, **extra)
+        else:
+            self.undecided(site, "shape-not-recognised", what, where, **extra)
 
     def note(self, s):
         self.notes.append(s)
